@@ -339,18 +339,25 @@ def run_session(script, env=None, final_timeout=15.0):
                 t0 = time.time()
                 if cmd.strip() == "isready":
                     # the command is its own barrier (a second isready would desynchronise the answers)
-                    rl, ok, eof = e.read_until(lambda l: l == "readyok", 5.0)
+                    rl, ok, eof = e.read_until(lambda l: l == "readyok", 10.0)
                     lines = [l for _, l in rl[:-1]] if ok else None
                 else:
-                    lines = e.sync(5.0)
+                    lines = e.sync(10.0)
                 dt = time.time() - t0
                 if lines is None:
-                    problems.append(f"isready not answered within 5 s after `{cmd}`")
+                    problems.append(f"isready not answered within 10 s after `{cmd}`")
                     alive = False
                     break
                 got = lines
                 if dt > 2.0:
-                    problems.append(f"isready took {dt:.1f} s after `{cmd}`")
+                    # slow once is what a loaded machine does; an engine that makes `isready` wait is slow again
+                    t1 = time.time()
+                    again = e.sync(10.0)
+                    dt2 = time.time() - t1
+                    if again is None or dt > 4.0 or dt2 > 1.0:
+                        problems.append(f"isready took {dt:.1f} s after `{cmd}` (and {dt2:.1f} s when asked again)")
+                    elif again:
+                        got = got + again
                 if wait == "quiet" and any(l.startswith("bestmove") for l in got):
                     problems.append("bestmove announced although no stop was sent, no time budget applies and the depth limit is out of reach")
             answers.append((cmd, got))
